@@ -68,7 +68,7 @@ func c20describe(hist []porcupine.Operation, skipClient int, f func(in, out inte
 
 func c20Gen(r *sim.Rand, tier string) *sim.Case {
 	cs := &sim.Case{Knobs: map[string]int64{}}
-	cs.Variant = []string{"vlan", "qinq", "pppoe", "pppoe-wrap", "state-session", "state-lease", "allocstore", "submgr", "circuit"}[r.Weighted(60, 32, 32, 1, 14, 14, 18, 20, 8)]
+	cs.Variant = []string{"vlan", "qinq", "pppoe", "pppoe-wrap", "state-session", "state-lease", "allocstore", "submgr", "circuit"}[r.Weighted(60, 32, 32, 3, 14, 14, 18, 20, 8)]
 	ncl := sim.Pick(r, 1, 1, 1, 2, 2, 3, 4)
 	if cs.Variant == "pppoe-wrap" || cs.Variant == "circuit" {
 		ncl = 1
@@ -209,8 +209,14 @@ func c20Gen(r *sim.Rand, tier string) *sim.Case {
 		}
 	}
 	if cs.Variant == "pppoe-wrap" {
-		// drive the id counter to just below the wrap first
-		cs.Ops = append(cs.Ops, sim.Op{K: "spin", A: []int64{0, int64(65535 - r.Range(1, 6))}})
+		// a long-lived session takes the first id; then drive the id counter to just below the
+		// wrap (or right round to that session's id) and let the idle sweep race a teardown+setup
+		cs.Ops = append(cs.Ops, sim.Op{K: "create", A: []int64{0, 0}})
+		if r.P(50) {
+			cs.Ops = append(cs.Ops, sim.Op{K: "spin", A: []int64{0, 65534}}, sim.Op{K: "sweeprace"})
+		} else {
+			cs.Ops = append(cs.Ops, sim.Op{K: "spin", A: []int64{0, int64(65535 - r.Range(1, 6))}})
+		}
 		cs.Knobs["skipmax"] = 4096
 		cs.Knobs["maxsteps"] = 3000000
 	}
@@ -220,12 +226,51 @@ func c20Gen(r *sim.Rand, tier string) *sim.Case {
 		if cs.Variant == "vlan" && ncl >= 2 && r.P(20) {
 			// motif: an NTE is released by one caller while another moves it to a different S-TAG
 			// (and a third allocates for someone else)
+			// (the NTE holds a pair beforehand and another NTE holds none; that one allocates during
+			// the overlap, and afterwards the first allocates again, taking whatever was freed)
+			oth := (hot + 1 + r.N(n-1)) % n
+			cs.Ops = append(cs.Ops, sim.Op{K: "alloc", A: []int64{0, int64(hot)}}, sim.Op{K: "release", A: []int64{0, int64(oth)}}, sim.Op{K: "tick", A: []int64{1}})
 			cs.Ops = append(cs.Ops, sim.Op{K: "release", A: []int64{0, int64(hot)}}, sim.Op{K: "allocs", A: []int64{1, int64(hot), int64(r.N(2))}})
-			if ncl >= 3 {
-				cs.Ops = append(cs.Ops, sim.Op{K: "alloc", A: []int64{2, int64(r.N(n))}})
+			if ncl >= 3 && r.P(50) {
+				cs.Ops = append(cs.Ops, sim.Op{K: "alloc", A: []int64{2, int64(oth)}})
+			} else {
+				cs.Ops = append(cs.Ops, sim.Op{K: "alloc", A: []int64{1, int64(oth)}})
 			}
-			total += 3
-			cs.Ops = append(cs.Ops, sim.Op{K: "tick", A: []int64{1}})
+			cs.Ops = append(cs.Ops, sim.Op{K: "tick", A: []int64{1}},
+				sim.Op{K: "alloc", A: []int64{0, int64(hot)}}, sim.Op{K: "alloc", A: []int64{0, int64(r.N(n))}}, sim.Op{K: "tick", A: []int64{1}})
+			total += 8
+			continue
+		}
+		if cs.Variant == "qinq" && ncl >= 2 && r.P(20) {
+			// motif: a subscriber is unregistered by id while another caller moves it to a different
+			// pair and its old pair goes to someone else
+			pp, qq := r.N(8), 0
+			qq = (pp + 1 + r.N(7)) % 8
+			oth := (hot + 1 + r.N(n-1)) % n
+			cs.Ops = append(cs.Ops, sim.Op{K: "register", A: []int64{0, int64(pp), int64(hot)}}, sim.Op{K: "unregsub", A: []int64{0, int64(oth)}}, sim.Op{K: "tick", A: []int64{1}})
+			cs.Ops = append(cs.Ops, sim.Op{K: "unregsub", A: []int64{0, int64(hot)}}, sim.Op{K: "register", A: []int64{1, int64(qq), int64(hot)}})
+			if ncl >= 3 && r.P(50) {
+				cs.Ops = append(cs.Ops, sim.Op{K: "register", A: []int64{2, int64(pp), int64(oth)}})
+			} else {
+				cs.Ops = append(cs.Ops, sim.Op{K: "register", A: []int64{1, int64(pp), int64(oth)}})
+			}
+			cs.Ops = append(cs.Ops, sim.Op{K: "tick", A: []int64{1}},
+				sim.Op{K: "getsub", A: []int64{0, int64(pp)}}, sim.Op{K: "getvlan", A: []int64{0, int64(hot)}}, sim.Op{K: "tick", A: []int64{1}})
+			total += 8
+			continue
+		}
+		if cs.Variant == "submgr" && ncl >= 2 && r.P(20) {
+			// motif: one session is re-assigned while it is terminated (twice, with a third
+			// caller), other sessions take addresses meanwhile and are then terminated too
+			sl := int64(r.N(6))
+			cs.Ops = append(cs.Ops, sim.Op{K: "assign", A: []int64{0, sl}}, sim.Op{K: "terminate", A: []int64{1, sl}}, sim.Op{K: "assign", A: []int64{1, sl + 1}})
+			if ncl >= 3 {
+				cs.Ops = append(cs.Ops, sim.Op{K: "terminate", A: []int64{2, sl}}, sim.Op{K: "assign", A: []int64{2, sl + 2}})
+			}
+			cs.Ops = append(cs.Ops, sim.Op{K: "tick", A: []int64{1}},
+				sim.Op{K: "create", A: []int64{0, int64(r.N(n))}}, sim.Op{K: "assign", A: []int64{0, sl + 3}}, sim.Op{K: "terminate", A: []int64{0, sl + 3}},
+				sim.Op{K: "tick", A: []int64{1}})
+			total += 8
 			continue
 		}
 		for cl := 0; cl < ncl; cl++ {
